@@ -322,6 +322,13 @@ fn eval_builtin_incstr(
 
     let bigint_size = bigint.size.unwrap();
 
+    // Like `incbin`, an empty file is an empty value,
+    // whatever the requested range
+    if bigint_size == 0
+    {
+        return Ok(expr::Value::make_integer(bigint));
+    }
+
     let start = {
         if query.args.len() >= 2
         {
